@@ -104,6 +104,18 @@ def run_case(case, ctx):
         tr = {"src": case["src"], "has_empty": has_empty}
         mediamon.set_form("c16")
         for i, tgt in enumerate(case["chain"]):
+            if tgt in ("dsk", "cas") and len(expected) == 1 and len(expected[0]["data"]) > 0 and i == len(case["chain"]) - 1 and not case["select"] and case["id"].endswith(("1", "4", "7")):
+                # one invocation with a container target AND --to_bin: the binary must still be the file's data byte for byte
+                out = "combo.%s" % tgt
+                argv = [cur, "--to_" + tgt, out, "--to_bin", "combo.bin"]
+                code, text, exc, events = run_tool(ctx, case, argv, d)
+                pth = os.path.join(d, "combo.bin")
+                got = open(pth, "rb").read() if os.path.exists(pth) else None
+                if got != expected[0]["data"]:
+                    ctx.violation("convert", "%s->%s+bin" % (cur.split(".")[-1], tgt), "TO-BIN-DATA-DIFFERS", {"show": "%s: file_util.py %s -> bin has %s bytes, file has %d" % (case["id"], " ".join(argv), None if got is None else len(got), len(expected[0]["data"]))}, tr)
+                    ctx.outcome("bad")
+                    return
+                ctx.cell("step/container+bin")
             if tgt == "both":
                 # one invocation naming two targets: each must hold every selected file
                 argv = [cur, "--to_cas", "both.cas", "--to_dsk", "both.dsk"]
